@@ -5,7 +5,7 @@ from __future__ import annotations
 import ast
 from typing import List
 
-from ..astutil import call_name, calls, kwarg, txt, walk_local
+from ..astutil import call_name, calls, kwarg, last_attr, txt, walk_local
 from ..index import AnalysisError
 from ..report import Ctx
 from . import family_e
@@ -51,6 +51,14 @@ def r17_2(ctx: Ctx) -> None:
              and n.iter.args and txt(n.iter.args[0]).endswith(".items()")
              and any(isinstance(st, ast.Assign) and ".qualifiers[" in txt(st.targets[0]) for st in n.body)]
     quals = txt(loops[0].iter.args[0])[:-len(".items()")] if loops else ""
+    if not loops:
+        # or in one step: <feature>.qualifiers.update(sorted(<dict>.items()))
+        for c in calls(func):
+            if last_attr(c) == "update" and txt(c.func.value).endswith(".qualifiers") and len(c.args) == 1 \
+                    and isinstance(c.args[0], ast.Call) and call_name(c.args[0]) == "sorted" and c.args[0].args \
+                    and txt(c.args[0].args[0]).endswith(".items()") and not c.args[0].keywords:
+                quals = txt(c.args[0].args[0])[:-len(".items()")]
+                loops = [c]
     note_stores = [n for n in walk_local(func) if isinstance(n, ast.Assign) and isinstance(n.targets[0], ast.Subscript)
                    and txt(n.targets[0].value) == quals and txt(n.targets[0].slice) in ("'note'", '"note"')]
     ok = bool(note_stores) and all(isinstance(n.value, ast.Call) and call_name(n.value) == "sorted" for n in note_stores)
